@@ -260,7 +260,8 @@ Section KeyMatch.
     - eauto.
     - onomatch H.
     - cbn in H. destruct (lookup k cfg) as [fields|].
-      + destruct (list_to_object tv fields); cbn in H; try onomatch H;
+      + destruct (negb (shape_ok v)); [onomatch H|].
+        destruct (list_to_object tv fields); cbn in H; try onomatch H;
           destruct (list_to_object v fields); cbn in H; onomatch H.
       + onomatch H.
   Qed.
@@ -278,7 +279,7 @@ Section KeyMatch.
   (* key compared as a keyed collection *)
   Lemma key_match_as_map ak la k tv v lav fields T A :
     specified_key lk k = true -> lookup k cfg = Some fields ->
-    probe_la la k = LaVal lav -> lookup k ak = Some v ->
+    probe_la la k = LaVal lav -> lookup k ak = Some v -> shape_ok v = true ->
     list_to_object tv fields = Ret T -> list_to_object v fields = Ret A ->
     key_match rec sk lk cfg ak la k tv =
       match list_to_object lav fields with
@@ -286,8 +287,37 @@ Section KeyMatch.
       | c => outs_of_fail c
       end.
   Proof.
-    intros S C P Lk LT LA. apply specified_key_inv in S. destruct S as [_ [S2 S3]].
-    unfold key_match. rewrite S2, P, S3, Lk, C, LT, LA. reflexivity.
+    intros S C P Lk Sh LT LA. apply specified_key_inv in S. destruct S as [_ [S2 S3]].
+    unfold key_match. rewrite S2, P, S3, Lk, C, Sh, LT, LA. reflexivity.
+  Qed.
+
+  (* ... whose live value is neither null nor a list of maps: mismatch *)
+  Lemma key_match_as_map_bad ak la k tv v lav fields :
+    specified_key lk k = true -> lookup k cfg = Some fields ->
+    probe_la la k = LaVal lav -> lookup k ak = Some v -> shape_ok v = false ->
+    key_match rec sk lk cfg ak la k tv = O_false.
+  Proof.
+    intros S C P Lk Sh. apply specified_key_inv in S. destruct S as [_ [S2 S3]].
+    unfold key_match. rewrite S2, P, S3, Lk, C, Sh. reflexivity.
+  Qed.
+
+  Lemma key_match_as_map_shape ak la k tv v fields :
+    specified_key lk k = true -> lookup k cfg = Some fields -> lookup k ak = Some v ->
+    key_match rec sk lk cfg ak la k tv = O_match -> shape_ok v = true.
+  Proof.
+    intros S C Lk H. apply specified_key_inv in S. destruct S as [_ [S2 S3]].
+    unfold key_match in H. rewrite S2, S3, Lk, C in H.
+    destruct (shape_ok v); auto. destruct (probe_la la k); cbn in H; onomatch H.
+  Qed.
+
+  Lemma key_match_present ak la k tv :
+    specified_key lk k = true -> key_match rec sk lk cfg ak la k tv = O_match ->
+    exists v, lookup k ak = Some v.
+  Proof.
+    intros S H. apply specified_key_inv in S. destruct S as [_ [S2 S3]].
+    unfold key_match in H. rewrite S2, S3 in H.
+    destruct (lookup k ak) as [v|]; eauto.
+    destruct (probe_la la k); onomatch H.
   Qed.
 
   (* the whole loop after a change of the live map at one specified key *)
@@ -537,6 +567,7 @@ Proof.
     | tk s ak k tv sk lk cfg D Lk Sp
     | tk s ak k tv v v' p sk lk cfg D Lk Sp C Lv Dev IH
     | tk s ak k tv v v' p sk lk cfg fields T A A' D Lk Sp C Lv LT LA LA' Dev IH
+    | tk s ak k tv v' sk lk cfg fields D Lk Sp C Sh
     | tl al i t a a' p Nt Na Dev IH ]; intros n la W H.
   - apply vmatch_leaf; auto.
   - destruct l'; destruct n; cbn; try reflexivity; exfalso; eapply NM; eauto.
@@ -609,13 +640,29 @@ Proof.
     assert (Km : key_match (vmatch_f n') sk lk cfg ak la k tv = O_match).
     { apply (proj1 (keys_loop_match _ _ _ _ _ _ _) H); auto. apply v_lookup_In; auto. }
     destruct (key_match_probe _ _ _ _ _ _ _ _ _ Sp Lv Km) as [lav P].
-    rewrite (key_match_as_map _ _ _ _ _ _ _ _ _ _ _ _ _ Sp C P Lv LT LA) in Km.
+    pose proof (key_match_as_map_shape _ _ _ _ _ _ _ _ _ _ Sp C Lv Km) as Shv.
+    rewrite (key_match_as_map _ _ _ _ _ _ _ _ _ _ _ _ _ Sp C P Lv Shv LT LA) in Km.
     eapply keys_loop_dev; eauto.
     + intros k1 E. apply v_lookup_set_key_neq; auto.
-    + rewrite (key_match_as_map _ _ _ _ (set_key k v' ak) _ _ _ v' _ _ _ _ Sp C P
-                 (v_lookup_set_key_eq _ _ _) LT LA').
-      destruct (list_to_object lav fields) as [L| |]; try onomatch Km.
-      apply IH; auto. eapply wf_list_to_object; eauto. eapply Wv. apply v_lookup_In. eauto.
+    + destruct (shape_ok v') eqn:Shv'.
+      * rewrite (key_match_as_map _ _ _ _ (set_key k v' ak) _ _ _ v' _ _ _ _ Sp C P
+                   (v_lookup_set_key_eq _ _ _) Shv' LT LA').
+        destruct (list_to_object lav fields) as [L| |]; try onomatch Km.
+        apply IH; auto. eapply wf_list_to_object; eauto. eapply Wv. apply v_lookup_In. eauto.
+      * eapply key_match_as_map_bad; eauto. apply v_lookup_set_key_eq.
+  - (* a compare-as-map value that is no longer a list of maps *)
+    destruct n as [|n']; [cbn in H; onomatch H|].
+    rewrite vmatch_map_unfold in H |- *.
+    rewrite (dict_match_dirs _ _ _ _ _ _ _ D) in H. rewrite (dict_match_dirs _ _ _ _ _ _ _ D).
+    apply wf_map_inv in W. destruct W as [ND Wv].
+    pose proof (specified_key_inv lk k Sp) as [Dk [Ok Lkk]].
+    assert (Km : key_match (vmatch_f n') sk lk cfg ak la k tv = O_match).
+    { apply (proj1 (keys_loop_match _ _ _ _ _ _ _) H); auto. apply v_lookup_In; auto. }
+    destruct (key_match_present _ _ _ _ _ _ _ _ Sp Km) as [v Lv].
+    destruct (key_match_probe _ _ _ _ _ _ _ _ _ Sp Lv Km) as [lav P].
+    eapply keys_loop_dev; eauto.
+    + intros k1 E. apply v_lookup_set_key_neq; auto.
+    + eapply key_match_as_map_bad; eauto. apply v_lookup_set_key_eq.
   - (* an element of an ordered list *)
     destruct (vmatch_list_match_inv _ _ _ _ H) as [n' [al0 [En El]]].
     inversion El. subst al0 n. rewrite vmatch_list_unfold in H |- *.
@@ -639,42 +686,63 @@ Proof.
   - eapply sp_key_here; eauto.
   - eapply sp_key; eauto.
   - eapply sp_key_as_map; eauto.
+  - eapply sp_key_here; eauto.
   - eapply sp_idx; eauto.
 Qed.
 
 (* ------------------------------------------------------------------ *)
-(* C05: the two recorded side conditions are real (witnesses)          *)
+(* C05: the two repaired defects (b382e54, d125f7c) — now detected     *)
 (* ------------------------------------------------------------------ *)
 
-(* (a) a member of a set-directed list retyped between bool and int: the
-   live object differs from the target in a specified leaf, the comparison
-   still says match *)
+(* membership in a set-directed list tells a bool from the int it equals *)
+Lemma set_mem_spec x l : set_mem x l = true <-> exists y, In y l /\ set_elem_eq x y = true.
+Proof. unfold set_mem. apply existsb_exists. Qed.
+
+Lemma set_elem_eq_leaf_same x y : set_elem_eq x y = leaf_same x y.
+Proof. destruct x, y; reflexivity. Qed.
+
+Lemma set_mem_bool_int b l :
+  (forall y, In y l -> forall c, y <> JBool c) -> set_mem (JBool b) l = false.
+Proof.
+  intros H. unfold set_mem. apply Bool.not_true_is_false. intros C.
+  apply existsb_exists in C. destruct C as [y [I E]].
+  destruct y; try discriminate E. eapply H; eauto.
+Qed.
+
+(* (a) a member of a set-directed list retyped between bool and int *)
 Definition wa_target : json :=
   JMap [(K_SET, JList [JStr "s"]); ("s", JList [JInt 1; JStr "a"])].
-Definition wa_live : json := JMap [("s", JList [JInt 1; JStr "a"])].
-Definition wa_live' : json := JMap [("s", JList [JBool true; JStr "a"])].
+Definition wa_live : json := JMap [("s", JList [JStr "a"; JInt 1])].
+Definition wa_live' : json := JMap [("s", JList [JStr "a"; JBool true])].
 
-Lemma set_boolint_not_detected :
+Lemma set_boolint_detected :
   vmatch wa_target wa_live None false = O_match /\
-  leaf_same (JInt 1) (JBool true) = false /\
-  vmatch wa_target wa_live' None false = O_match /\
-  (* ... although an ordered list does tell them apart *)
-  vmatch (JMap [("s", JList [JInt 1; JStr "a"])]) wa_live' None false = O_false.
-Proof. vm_compute. auto. Qed.
+  deviates wa_target false [SKey "s"] wa_live wa_live' /\
+  vmatch wa_target wa_live' None false = O_false /\
+  (* 1 vs 1.0 is still the same member *)
+  vmatch wa_target (JMap [("s", JList [JFloat 1 0; JStr "a"])]) None false = O_match.
+Proof.
+  split; [vm_compute; reflexivity|]. split; [|split; vm_compute; reflexivity].
+  unfold wa_target, wa_live, wa_live'.
+  change (JMap [("s", JList [JStr "a"; JBool true])])
+    with (JMap (set_key "s" (JList [JStr "a"; JBool true]) [("s", JList [JStr "a"; JInt 1])])).
+  eapply (dev_key _ _ _ "s" _ _ _ [] ["s"] [] []); try (vm_compute; reflexivity).
+  cbn [mem_str String.eqb orb]. change (mem_str "s" ["s"]) with true.
+  eapply (dev_set_lost _ _ _ (JInt 1)); [left; reflexivity | vm_compute; reflexivity].
+Qed.
 
-(* (b) under x-koreo-compare-as-map a live value that is not a list of maps:
-   the comparison raises instead of reporting the drift *)
+(* (b) under x-koreo-compare-as-map a live value that is not a list of maps *)
 Definition wb_target : json :=
   JMap [(K_MAP, JMap [("m", JList [JStr "name"])]);
         ("m", JList [JMap [("name", JStr "a")]])].
 Definition wb_live : json := JMap [("m", JList [JMap [("name", JStr "a"); ("extra", JInt 1)]])].
 
-Lemma as_map_retype_raises :
+Lemma as_map_retype_detected :
   vmatch wb_target wb_live None false = O_match /\
-  vmatch wb_target (JMap [("m", JStr "str")]) None false = O_raise VAttributeError /\
-  vmatch wb_target (JMap [("m", JList [JInt 1])]) None false = O_raise VAttributeError /\
-  vmatch wb_target (JMap [("m", JInt 5)]) None false = O_raise VTypeError /\
-  vmatch wb_target (JMap [("m", JMap [("name", JStr "a")])]) None false = O_raise VAttributeError.
+  vmatch wb_target (JMap [("m", JStr "str")]) None false = O_false /\
+  vmatch wb_target (JMap [("m", JList [JInt 1])]) None false = O_false /\
+  vmatch wb_target (JMap [("m", JInt 5)]) None false = O_false /\
+  vmatch wb_target (JMap [("m", JMap [("name", JStr "a")])]) None false = O_false.
 Proof. vm_compute. auto 6. Qed.
 
 (* ------------------------------------------------------------------ *)
@@ -773,7 +841,7 @@ Lemma tail_unfold cfg t live ann rr la v :
 Proof. intros R E V. unfold tail. rewrite R, E, V. reflexivity. Qed.
 
 (* drift at a specified path => exactly the action the policy prescribes *)
-Theorem drift_corrected_thm cfg t l l' p ann ann' rr rr' la :
+Theorem drift_corrected_thm cfg t l l' p ann ann' rr' la :
   wf t = true ->
   (* the object matched ... *)
   extract_last_applied_r l ann = Done la -> vmatch t l la false = O_match ->
@@ -781,7 +849,6 @@ Theorem drift_corrected_thm cfg t l l' p ann ann' rr rr' la :
   deviates t false p l l' ->
   extract_last_applied_r l' ann' = Done la ->
   (if tc_should_own cfg then validate_owner_reffed_r l' (tc_owner_ref cfg) else Done (Reffed true)) = Done rr' ->
-  rr = rr' ->
   tail cfg t l' ann' =
     Some (match tc_update cfg with
           | PNever => (TLive l', [])
@@ -789,7 +856,7 @@ Theorem drift_corrected_thm cfg t l l' p ann ann' rr rr' la :
           | PPatch d => patch_branch cfg t l' rr' d
           end).
 Proof.
-  intros W E M D E' R _.
+  intros W E M D E' R.
   rewrite (tail_unfold cfg t l' ann' rr' la (Done false)); auto.
   rewrite (drift_detected_thm t false p l l' la W M D). reflexivity.
 Qed.
